@@ -343,3 +343,25 @@ Definition py_catch {A B} (r : res A) (e : err) (h : unit -> res B) (k : A -> re
   | Ok a => k a
   | Err e' => if err_eqb e' e then h tt else Err e'
   end.
+
+(** d.values() *)
+Definition py_values (v : pyval) : res pyval :=
+  match v with VDict l => Ok (VList (map snd l)) | _ => Err EAttribute end.
+
+(** d[k] = v : an existing key keeps its position, a new one goes last *)
+Fixpoint pv_set (k v : pyval) (l : list (pyval * pyval)) : list (pyval * pyval) :=
+  match l with
+  | [] => [(k, v)]
+  | (k', v') :: l' => if pv_eqb k k' then (k', v) :: l' else (k', v') :: pv_set k v l'
+  end.
+Definition py_setitem (d k v : pyval) : res pyval :=
+  match d with VDict l => Ok (VDict (pv_set k v l)) | _ => Err ETypeError end.
+
+(** for k, v in d.items() *)
+Fixpoint py_fold_items {S : Type} (l : list (pyval * pyval)) (st : S) (body : pyval -> pyval -> S -> res S) : res S :=
+  match l with
+  | [] => Ok st
+  | (k, v) :: l' => do st' <- body k v st; py_fold_items l' st' body
+  end.
+Definition py_for_items {S : Type} (d : pyval) (st : S) (body : pyval -> pyval -> S -> res S) : res S :=
+  match d with VDict l => py_fold_items l st body | _ => Err EAttribute end.
